@@ -18,6 +18,7 @@ RULE = ('programs from vf.progen with implicit exceptions excluded (no possibly-
 ASSUMPTIONS = [
     'reads of enclosing-function variables from nested functions carry no definitions by design (known finding F12): only reads of the reading function\'s own locals are checked',
     'a variable rebound by a callee through nonlocal is not demanded until the owner rebinds it (calibration)',
+    'for-loop targets are fresh, never rebound names (known finding F03b: the header node kills the target definition on the exit edge)',
     'except-clause names are outside the property; lambda bodies are not instrumented',
     'checking of an activation stops where a finally runs during propagation or an exception arrives from a call',
 ]
@@ -25,7 +26,7 @@ LEVEL_TEXT = ('Randomised exploration: each executed read / statement entry of e
               'analysis result computed by the current tree; the fixed-point clause is checked on every graph.')
 LEVEL_NOTE = 'Trusted: CPython executing the instrumented copy; vf/instrument.py event placement; the mapping write site -> gen_map entry.'
 
-GEN = {'unbound_reads': False, 'excl': ('no_try_else', 'no_jump_in_handler_with_finally')}
+GEN = {'unbound_reads': False, 'excl': ('no_try_else', 'no_jump_in_handler_with_finally', 'no_for_target_rebind')}
 
 
 def budget(tier):
